@@ -17,7 +17,7 @@ from ..appmodel import (APP, CALLBACKS, RF, call_sig, cb_may_raise, closure_env,
 from ..harness import rule
 from ..index import AnalysisError, text
 from ..rulekit import CLOSED_EXC, TIMEOUT_EXC, WS_EXC, dim_of, flows_from, new_dict, new_obj, origins, path_text
-from ..values import C, FALSE, INF, NONE, TRUE, App, Cls, Ref, Sym, Tup
+from ..values import C, FALSE, INF, NONE, TRUE, App, Cls, HObj, Ref, Sym, Tup
 
 TD = f"{RF}.teardown"
 
@@ -505,6 +505,28 @@ def r6(ctx):
         ok = "store:app.keep_running" in names and "appsock.close" in names and names.index("store:app.keep_running") < names.index("appsock.close") \
             and f.get("sock") == NONE and f.get("keep_running") == FALSE
         ctx.ob(f"{APP}.close:order", ok, f"effects {names}", idx.loc(idx.func(f"{APP}.close").node))
+    # the low-level close() refuses its arguments (status out of range, reason too long) BEFORE it touches the socket: the app must not
+    # drop its reference to a transport that is still open -- teardown() would find nothing to close and the socket would leak
+    def refusing_close(I, run, args, kwargs, node):
+        run.effect("appsock.close:refused", (), node=node)
+        from ..absint import RaiseSig
+        raise RaiseSig(run.alloc(HObj("builtins.ValueError", {"args": Tup(())})), node)
+
+    st4 = sock_stubs()
+    st4["appsock.close"] = refusing_close
+    I4 = Interp(idx, Config(stubs=st4))
+
+    def body4(run):
+        app = mk_app(I4, run, sock=mk_sock(run), keep_running=TRUE)
+        del run.effects[:]
+        return I4.call(run, I4.getattr(run, app, "close", None), [], {"status": C(70000)}, None)
+
+    outs4 = ctx.count_paths(I4.explore(body4))
+    bad = next((o for o in outs4 if _app_fields(o).get("sock") == NONE), None)
+    ctx.ob(f"{APP}.close:refused-arguments-keep-the-socket", bad is None and bool(outs4),
+           "a close() whose arguments are refused leaves the (still open) socket with the app, for teardown to release" if bad is None else
+           "WebSocketApp.close() drops its socket reference although the low-level close() refused its arguments without closing anything: the run ends with the transport still open",
+           idx.loc(idx.func(f"{APP}.close").node), {"path": path_text(bad)} if bad else None)
 
 
 @rule("R-C14-7", min_instances=10, title="close() from another thread before any statement of the loop-side closures: the run ends cleanly (one on_close, last; no error reported; result False)")
